@@ -11,6 +11,10 @@ use kawa::{h1::BlockConverter as H1BlockConverter, Buffer, Kawa, Kind};
 use sozu_lib::pool::{Checkout, Pool};
 use sozu_lib::protocol::kawa_h1::editor::{HeaderEditMode, HeaderEditSnapshot, HttpContext};
 use sozu_lib::protocol::mux::verif::{apply_response_header_edits, handle_header, H2BlockConverter};
+use sozu_command_lib::proto::command::{Header as CmdHeader, HeaderPosition, HstsConfig, PathRule, RulePosition};
+use sozu_command_lib::response::HttpFrontend;
+use sozu_lib::protocol::kawa_h1::parser::Method;
+use sozu_lib::router::{HstsOrigin, Router};
 use sozu_lib::Protocol;
 use verif_harness::*;
 
@@ -1227,6 +1231,195 @@ fn split_cookie(v: &[u8]) -> Vec<Vec<u8>> {
     out
 }
 
+// ------------------------------------------- HSTS over a configuration history --
+// real `Router::add_http_front_with_hsts_origin` / `refresh_inheriting_hsts` /
+// `remove_http_front` / `lookup`, driven the way `https.rs` drives them (the
+// listener-default fall-back of `add_https_frontend` and the store-then-refresh
+// of `update_config` are replicated here: those two pieces of glue are not
+// callable without a running listener).
+
+struct HstsWorld {
+    router: Router,
+    default: Option<HstsConfig>,
+    /// what each live frontend was added with: (own block, its HttpFrontend)
+    fronts: std::collections::BTreeMap<u64, (Option<HstsConfig>, HttpFrontend)>,
+}
+
+fn parse_cfg(w: &str) -> Option<Option<HstsConfig>> {
+    if w == "~" {
+        return Some(None);
+    }
+    let f: Vec<&str> = w.split(',').collect();
+    if f.len() != 5 {
+        return None;
+    }
+    let b = |x: &str| if x == "1" { Some(true) } else { None };
+    Some(Some(HstsConfig {
+        enabled: match f[0] {
+            "t" => Some(true),
+            "f" => Some(false),
+            _ => None,
+        },
+        max_age: f[1].parse().ok(),
+        include_subdomains: b(f[2]),
+        preload: b(f[3]),
+        force_replace_backend: b(f[4]),
+    }))
+}
+
+fn show_edits(e: &[(Vec<u8>, Vec<u8>, char)]) -> String {
+    if e.is_empty() {
+        return "_".into();
+    }
+    e.iter().map(|(k, v, m)| format!("{}:{}:{}", hex(k), hex(v), m)).collect::<Vec<_>>().join(",")
+}
+
+impl Headers {
+    fn op_hsts(&self, w: &[&str], r: &mut ImplRun, world: &mut Option<HstsWorld>) -> String {
+        if w[0] == "hdef" {
+            let Some(d) = parse_cfg(w[1]) else { return "bad-op".into() };
+            *world = Some(HstsWorld { router: Router::new(), default: d, fronts: Default::default() });
+            return "ok".into();
+        }
+        let Some(wd) = world.as_mut() else { return "bad-op".into() };
+        match w[0] {
+            "hadd" => {
+                let id: u64 = w[1].parse().unwrap_or(0);
+                let deny = w[2] == "1";
+                let policy = w[3] == "1";
+                let other: Vec<(Vec<u8>, Vec<u8>)> = if w[4] == "_" { vec![] } else { w[4].split(',').map(|e| { let f: Vec<&str> = e.split(':').collect(); (unhex(f[0]), unhex(f[1])) }).collect() };
+                let Some(block) = parse_cfg(w[5]) else { return "bad-op".into() };
+                let mut front = HttpFrontend {
+                    cluster_id: if deny { None } else { Some(format!("c{id}")) },
+                    address: "127.0.0.1:8443".parse().unwrap(),
+                    hostname: format!("f{id}.example"),
+                    path: PathRule::prefix("/".to_string()),
+                    method: None,
+                    position: match id % 3 {
+                        0 => RulePosition::Tree,
+                        1 => RulePosition::Pre,
+                        _ => RulePosition::Post,
+                    },
+                    tags: None,
+                    redirect: None,
+                    redirect_scheme: None,
+                    redirect_template: None,
+                    rewrite_host: None,
+                    rewrite_path: if policy { Some("/p".into()) } else { None },
+                    rewrite_port: None,
+                    required_auth: None,
+                    headers: other.iter().map(|(k, v)| CmdHeader { position: HeaderPosition::Response as i32, key: lossy(k), val: lossy(v) }).collect(),
+                    hsts: block,
+                };
+                // https.rs::add_https_frontend
+                let origin = if front.hsts.is_none() && wd.default.is_some() {
+                    front.hsts = wd.default;
+                    HstsOrigin::InheritedFromListenerDefault
+                } else {
+                    HstsOrigin::Explicit
+                };
+                match wd.router.add_http_front_with_hsts_origin(&front, origin) {
+                    Ok(()) => {
+                        wd.fronts.insert(id, (block, front));
+                        r.tags.push(format!("hsts:add:{}", match block { None => "noblock", Some(c) if c.enabled == Some(true) => "enabled", _ => "optout" }));
+                        "ok".into()
+                    }
+                    Err(_) => "err".into(),
+                }
+            }
+            "hpatch" | "hunset" => {
+                // https.rs::HttpsListener::update_config (hunset: the bare router call with no default)
+                wd.default = if w[0] == "hunset" { None } else { parse_cfg(w[1]).flatten() };
+                if w[0] == "hpatch" && wd.default.is_none() {
+                    return "bad-op".into();
+                }
+                let n = wd.router.refresh_inheriting_hsts(wd.default.as_ref());
+                r.tags.push("hsts:patch".into());
+                format!("ok {n}")
+            }
+            "hdel" => {
+                let id: u64 = w[1].parse().unwrap_or(0);
+                match wd.fronts.get(&id) {
+                    Some((_, f)) => match wd.router.remove_http_front(f) {
+                        Ok(()) => {
+                            wd.fronts.remove(&id);
+                            "ok".into()
+                        }
+                        Err(_) => "err".into(),
+                    },
+                    None => "err".into(),
+                }
+            }
+            "hlook" => {
+                let id: u64 = w[1].parse().unwrap_or(0);
+                let input: Vec<Hdr> = unhl(w[2]);
+                let Ok(route) = wd.router.lookup(&format!("f{id}.example"), "/", &Method::Get) else { return "none".into() };
+                let edits: Vec<(Vec<u8>, Vec<u8>, char)> = route
+                    .headers_response
+                    .iter()
+                    .map(|e| (e.key.to_vec(), e.val.to_vec(), match e.mode { HeaderEditMode::Append => 'a', HeaderEditMode::SetIfAbsent => 'i', HeaderEditMode::Set => 's' }))
+                    .collect();
+                // what a client of this frontend would receive: the real response-edit pass on a parsed response
+                let mut resp = b"HTTP/1.1 200 OK\r\n".to_vec();
+                for (k, v) in &input {
+                    resp.extend_from_slice(&[k.as_slice(), b": ", v.as_slice(), b"\r\n"].concat());
+                }
+                resp.extend_from_slice(b"\r\n");
+                let mut pool = Pool::with_capacity(1, 1, BUF);
+                let mut kawa = Kawa::new(Kind::Response, Buffer::new(pool.checkout().expect("checkout")));
+                kawa.storage.write_all(&resp).expect("write");
+                kawa::h1::parse(&mut kawa, &mut NoOp);
+                let snaps: Vec<HeaderEditSnapshot> = route.headers_response.iter().map(|e| HeaderEditSnapshot { key: e.key.to_vec(), val: e.val.to_vec(), mode: e.mode }).collect();
+                apply_response_header_edits(&mut kawa, &snaps);
+                kawa.prepare(&mut H1BlockConverter);
+                let out = out_bytes(&kawa);
+                let Some((_, lines)) = header_lines(&out) else { return format!("unreadable {}", hex(&out)) };
+                r.tags.push("hsts:lookup".into());
+                if self.c13() {
+                    // the property's own reading: what may be *added* to this frontend's responses
+                    let sts_added: Vec<&(Vec<u8>, Vec<u8>, char)> = edits.iter().filter(|e| eq_nc(&e.0, b"strict-transport-security")).collect();
+                    let own = wd.fronts.get(&id).map(|f| f.0);
+                    let render = |c: &HstsConfig| c.max_age.map(|m| format!("max-age={m}{}{}", if c.include_subdomains == Some(true) { "; includeSubDomains" } else { "" }, if c.preload == Some(true) { "; preload" } else { "" }).into_bytes());
+                    if sts_added.len() > 1 {
+                        r.oracle.push(("hsts-more-than-one".into(), format!("frontend {id}: {} Strict-Transport-Security edits", sts_added.len())));
+                    }
+                    match own {
+                        Some(Some(c)) if c.enabled != Some(true) => {
+                            if !sts_added.is_empty() {
+                                r.oracle.push(("hsts-optout-gets-sts".into(), format!("frontend {id} disabled HSTS explicitly but its responses get `{}`", lossy(&sts_added[0].1))));
+                            }
+                        }
+                        Some(Some(c)) => {
+                            let want = render(&c);
+                            if sts_added.first().map(|e| Some(e.1.clone())) != Some(want.clone()) && want.is_some() {
+                                r.oracle.push(("hsts-own-value-lost".into(), format!("frontend {id} has its own HSTS block but gets {:?}", sts_added.first().map(|e| lossy(&e.1)))));
+                            }
+                        }
+                        Some(None) => {
+                            // no block: whatever is added must be the listener's current default, never a stale or foreign value
+                            let cur = wd.default.filter(|c| c.enabled == Some(true)).and_then(|c| render(&c));
+                            if let Some(e) = sts_added.first() {
+                                if Some(e.1.clone()) != cur {
+                                    r.oracle.push(("hsts-stale-default".into(), format!("frontend {id} gets `{}` but the listener default is {:?}", lossy(&e.1), cur.map(|c| lossy(&c)))));
+                                }
+                            }
+                        }
+                        None => {}
+                    }
+                    // on the wire: at most one STS more than the backend sent, and the backend's own headers otherwise intact
+                    let n_in = named(&input, b"strict-transport-security").len();
+                    let n_out = named(&lines, b"strict-transport-security").len();
+                    if n_out > n_in.max(1) && sts_added.iter().all(|e| e.2 != 'a') {
+                        r.oracle.push(("hsts-duplicated-on-wire".into(), format!("{n_in} STS from the backend, {n_out} to the client")));
+                    }
+                }
+                format!("ok {} | {}", show_edits(&edits), hl(&lines))
+            }
+            _ => "bad-op".into(),
+        }
+    }
+}
+
 include!("../headers_gen.rs");
 
 impl Area for Headers {
@@ -1253,6 +1446,7 @@ impl Area for Headers {
         let mut r = ImplRun::default();
         let mut last = Last::default();
         let mut keep: Option<H2Run> = None;
+        let mut world: Option<HstsWorld> = None;
         for op in ops {
             let w: Vec<&str> = op.split_whitespace().collect();
             let line = match (w.first().copied().unwrap_or(""), w.len()) {
@@ -1267,11 +1461,12 @@ impl Area for Headers {
                 ("edit", 8) => self.op_edit(&w, &mut r),
                 ("resp", 3) => self.op_resp(&w, &mut r),
                 ("respedits", 3) => self.op_respedits(&w, &mut r),
+                ("hdef", 2) | ("hadd", 6) | ("hpatch", 2) | ("hunset", 1) | ("hdel", 2) | ("hlook", 3) => self.op_hsts(&w, &mut r, &mut world),
                 _ => "bad-op".to_string(),
             };
             r.out.push(line);
         }
-        r.nontrivial = r.tags.iter().any(|t| t.starts_with("h2:") || t.starts_with("edit:") || t == "resp" || t == "respedits" || t.starts_with("h1:"));
+        r.nontrivial = r.tags.iter().any(|t| t.starts_with("h2:") || t.starts_with("edit:") || t == "resp" || t == "respedits" || t == "hsts:lookup" || t.starts_with("h1:"));
         r
     }
     fn classify_mismatch(&self, ops: &[String], impl_out: &[String], model_out: &[String]) -> String {
